@@ -5,6 +5,9 @@ import os, sys, json, time, hashlib, subprocess, shutil, glob, re, tempfile, con
 VERIF = os.path.dirname(os.path.dirname(os.path.abspath(__file__)))
 REPO = os.environ.get("VERIF_REPO", "/repo")
 BUILD = os.path.join(VERIF, "build")
+# scratch runs against a modified copy of the repository (bin/mutest) keep their run directories, replay files and evidence apart
+RUNROOT = os.environ.get("VERIF_RUNROOT", BUILD)
+EVIDENCE = os.environ.get("VERIF_EVIDENCE", os.path.join(VERIF, "evidence"))
 SPEC = os.path.join(VERIF, "spec")
 NCPU = int(os.environ.get("VERIF_JOBS", "16"))
 GUARD = "URIPARSER_VERIF"
@@ -227,8 +230,8 @@ def known_findings():
 
 # ------------------------------------------------------------------ evidence
 def write_evidence(pid, tier, seed, level, coverage, wall, violations, assumptions):
-    os.makedirs(os.path.join(VERIF, "evidence"), exist_ok=True)
+    os.makedirs(EVIDENCE, exist_ok=True)
     ev = dict(property_id=pid, tier=tier, seed=seed, level=level, coverage=coverage, assumptions=assumptions, wall_s=round(wall, 1), violations=violations)
-    p = os.path.join(VERIF, "evidence", pid + ".json")
+    p = os.path.join(EVIDENCE, pid + ".json")
     json.dump(ev, open(p + ".tmp", "w"), indent=1); os.replace(p + ".tmp", p)
     return p
